@@ -664,6 +664,8 @@ def gen_term(r, nfun, depth=None):
 def term_coq(t):
     if t[0] == 'f':
         return '(CFun %s)' % c_nat(t[1])
+    if t[0] == 'w':     # closure handed out by adapt_func (True) / restore_func (False): ['w', id, adapting, inner]
+        return '(CWrap %s %s %s)' % (c_nat(t[1]), c_bool(t[2]), term_coq(t[3]))
     return '(%s %s)' % ('CPartial' if t[0] == 'p' else 'CMethod', term_coq(t[1]))
 
 
@@ -785,17 +787,20 @@ def recording_functions(rec):
 
 
 def gen_session_desc(r):
+    """steps refer to entries of a table: first the pool terms, then (appended as the session runs) the
+    objects handed out by earlier adapt_func / restore_func steps and partials / bound methods of entries;
+    an index is taken modulo the current table size, `recent` steps pick among the last entries"""
     nfun = 5
     pool = [gen_term(r, nfun, depth=r.choice([0, 0, 1, 1, 2, 3])) for _ in range(r.choice([1, 2, 3]))]
-    # other wrappings of the same underlying functions
     for t in list(pool)[:2]:
         q = ['f', _underlying(t)]
         for _ in range(r.choice([0, 1, 2])):
             q = [r.choice(['p', 'm']), q]
         pool.append(q)
     steps = []
-    for _ in range(r.randint(3, 9)):
-        steps.append([r.choice(['reg', 'unreg', 'adapt', 'adapt', 'adapt', 'restore']), r.randrange(len(pool))])
+    for _ in range(r.randint(3, 10)):
+        what = r.choice(['reg', 'reg', 'unreg', 'adapt', 'adapt', 'adapt', 'restore', 'restore', 'partial', 'method'])
+        steps.append([what, r.randrange(1000), r.random() < 0.6])
     return {'pool': pool, 'steps': steps, 'decorator': r.random() < 0.5}
 
 
@@ -804,23 +809,33 @@ SESSION_TY = 'list reg_op * bool * callable * bool * bool * bool'
 
 
 def run_session(desc):
-    """one adapter instance, one python object per pool entry (re-used by every step that names it).
+    """one adapter instance, one python object per table entry (re-used by every step that names it).
     Returns one Coq case per adapt / restore step."""
     rec = []
     funs, holder = recording_functions(rec)
     reg = AdaptRegistry()
     ad = BaseNetworkxAdapter()
-    objs = [build_term(t, funs, holder) for t in desc['pool']]
+    terms = [list(t) for t in desc['pool']]
+    objs = [build_term(t, funs, holder) for t in terms]
     ops, out = [], []
+    fresh = 100
     try:
-        for k, (what, i) in enumerate(desc['steps']):
-            o, t = objs[i], desc['pool'][i]
+        for k, (what, pick, recent) in enumerate(desc['steps']):
+            n = len(objs)
+            i = (n - 1 - pick % min(3, n)) if recent else pick % n
+            o, t = objs[i], terms[i]
             if what == 'reg':
                 (register_native if desc['decorator'] else reg.register_native)(o)
                 ops.append(('RegOp', t))
             elif what == 'unreg':
                 reg.unregister_native(o)
                 ops.append(('UnregOp', t))
+            elif what == 'partial':
+                objs.append(functools.partial(o, 1))
+                terms.append(['p', t])
+            elif what == 'method':
+                objs.append(types.MethodType(o, holder))
+                terms.append(['m', t])
             else:
                 adapting = what == 'adapt'
                 native = bool(AdaptRegistry.is_native(o))
@@ -835,11 +850,15 @@ def run_session(desc):
                 out.append(('(%s, %s, %s, %s, %s, %s)' % (ops_c, c_bool(adapting), term_coq(t), c_bool(native),
                                                           c_bool(same), c_bool(recv_dom)),
                             {'step': k, 'what': what, 'native': native, 'same': same, 'recv_dom': recv_dom,
-                             'history': len(ops)}))
+                             'history': len(ops), 'nesting': repr(t).count("'w'")}))
+                if not same:            # a new function object: later steps may use it like any callable
+                    fresh += 1
+                    objs.append(res)
+                    terms.append(['w', fresh, adapting, t])
     finally:
-        for f in funs:
+        for o in objs + funs:
             try:
-                reg.unregister_native(f)
+                reg.unregister_native(o)
             except Exception:
                 pass
     return out
@@ -1156,7 +1175,7 @@ def run(ctx):
     for (desc, facts), rr in zip(metas, res):
         case = dict(desc, failing_step=facts['step'])
         ctx.count('sessions', key=(desc, facts['step']), nontrivial=facts['history'] > 0, wrapper=facts['what'],
-                  native=facts['native'], history=min(facts['history'], 5))
+                  native=facts['native'], history=min(facts['history'], 5), closure_nesting=facts['nesting'])
         _flag(ctx, 'sessions', case, rr, ['adapt_func / restore_func in a session differ from the model',
                                           'in a session on one adapter: a function registered as native is not used as is '
                                           '(or a domain function is not called with restored graphs) after the registry changed'], 1)
